@@ -31,6 +31,8 @@ type c02Case struct {
 	NilParam bool         `json:"nil_param"`
 	Skew     uint64       `json:"skew,omitempty"` // generation does not use the window: the code must not depend on it
 	Via      int          `json:"via,omitempty"`  // explicit parameters routed through an exported default pointer (see viaDefault)
+	// an operation of another family run immediately before the call (see disturb; omitted = none)
+	Before int `json:"before,omitempty"`
 }
 
 // zones 5..7 observe daylight saving time (tz database embedded through time/tzdata): in the hour
@@ -128,6 +130,7 @@ func checkC02(c c02Case) verdict {
 	if c.Via != 0 && !c.NilParam {
 		labels = append(labels, "via-exported-default")
 	}
+	disturb(c.Before)
 	got, err := otp.GenerateTOTP(secret, t, param)
 	if !supported {
 		labels = append(labels, "unsupported")
@@ -202,6 +205,12 @@ var c02Main = newPart("C02", "main",
 var c02Periods = []uint64{0, 0, 1, 2, 29, 30, 30, 31, 59, 60, 3600, 86400, 1 << 31, 1<<32 - 1, 1 << 32}
 
 func genC02(t *rapid.T) c02Case {
+	c := genC02Base(t)
+	c.Before = drawDisturb(t) // drawn last: the cases of a seed are otherwise what they were
+	return c
+}
+
+func genC02Base(t *rapid.T) c02Case {
 	c := c02Case{Key: gen.Key().Draw(t, "key"), Sp: gen.DrawSpelling(t)}
 	if rapid.IntRange(0, 4).Draw(t, "periodKind") == 0 {
 		c.Period = rapid.Uint64Range(1, 1<<32).Draw(t, "periodU")
